@@ -79,6 +79,14 @@ Multiparts == <<MultipartBody(<<KV("f1", "val 1")>>, << >>, "full")>>
                         <<FilePart("up", "a.txt", "", 4097, "reader"), FilePart("doc", "b.bin", "application/x-thing", 10, "field"),
                           FilePart("meta", "", "application/json", 12, "field"), FilePart("none", "e.txt", "", 0, "reader")>>, RdModes[j])]
 
+\* field and file names with a double quote, a backslash, a space (Content-Disposition quoted-string escaping)
+MultipartsNames == <<
+    MultipartBody(<<KV("my field", "v 1"), KV("a\"b", "q")>>,
+                  <<FilePart("up", "quarterly \"final\" report.txt", "", 30, "reader"),
+                    FilePart("doc 2", "backup\\", "application/x-thing", 10, "field"),
+                    FilePart("p\"q", "plain.txt", "", 8, "reader")>>, "full"),
+    MultipartBody(<< >>, <<FilePart("up", "a b\\c\"d.bin", "application/x-thing", 600, "field")>>, "first8") >>
+
 BodyShapes == SetToSeq({NoBody}
                        \cup {BytesBody(n) : n \in Sizes}
                        \cup UNION {{StreamBody(SizeSeq[j], SizeSeq[j], StepFor(SizeSeq[j]), RdAt(j)),
@@ -86,7 +94,7 @@ BodyShapes == SetToSeq({NoBody}
                                     StreamBody(SizeSeq[j], -1, StepFor(SizeSeq[j]), RdAt(j + 1)),
                                     StreamBody(SizeSeq[j], -1, 0, RdAt(j + 4))} : j \in 1 .. Len(SizeSeq)})
               \o [j \in 1 .. Len(Forms) |-> FormBody(Forms[j])]
-              \o Multiparts
+              \o Multiparts \o MultipartsNames
 
 \* operations on the specially stored request headers, carried out after everything else (H1Client!ApplyOp):
 \* one-byte values, exactly one / two cookies, a name written through the generic API and then through the dedicated
@@ -238,7 +246,9 @@ WithOrigins(p, s, x) ==
 Exchange(p, s, x) ==
     LET ps == WithOrigins(p, s, x) IN
     [prog |-> ps.prog, script |-> ps.script, wire |-> REncode(ps.script), headEnd |-> RHeadLen(ps.script),
-     wireLen |-> RWireLen(ps.script), peerClose |-> (RClosesAfter(ps.script) \/ EffClose(ps.prog))]
+     wireLen |-> RWireLen(ps.script), peerClose |-> (RClosesAfter(ps.script) \/ EffClose(ps.prog)), early |-> FALSE]
+\* the peer answers this exchange at once and closes, without reading the request
+Early(e) == [e EXCEPT !.early = TRUE, !.peerClose = TRUE]
 
 \* the script for a program: answers to HEAD only for HEAD
 ScriptFor(p, j) == IF p.method = "HEAD" THEN HeadScripts[(j % Len(HeadScripts)) + 1] ELSE PlainScripts[(j % Len(PlainScripts)) + 1]
@@ -300,6 +310,21 @@ CasesL ==
                     readSize |-> ReadSizes[(q % 3) + 1], reuseResp |-> TRUE],
            xs |-> <<Exchange(SimpleProgs[1], first, 1), Exchange(SimpleProgs[2], over, 2), Exchange(SimpleProgs[1], ProbeScript, 3)>>]]
 
+\* ---- set E: the peer answers EARLY (response queued, connection closed, request not read) while the client is still
+\* sending a body; MaxResponseBodySize 1000; the answer is over / under the limit in each framing; then a probe
+CasesE ==
+    LET idx == SetToSeq({<<f, big, st, pb>> : f \in 1 .. 3, big \in BOOLEAN, st \in BOOLEAN, pb \in 1 .. 2}) IN
+    [q \in 1 .. Len(idx) |->
+       LET n == IF idx[q][2] THEN 1010 ELSE 990
+           sc == CASE idx[q][1] = 1 -> LScript("cl", n, << >>)
+                   [] idx[q][1] = 2 -> LScript("chunked", n, <<255, n - 255>>)
+                   [] idx[q][1] = 3 -> LScript("close", n, << >>)
+           pr == IF idx[q][4] = 1 THEN Simple("POST", BytesBody(65537)) ELSE Simple("PUT", StreamBody(8193, -1, 1000, "full"))
+       IN [tag |-> "E", cutX |-> 0,
+           cfg |-> [stream |-> idx[q][3], maxResp |-> 1000, noNormHdr |-> FALSE, noNormPath |-> FALSE, proxy |-> FALSE,
+                    readSize |-> 0, reuseResp |-> TRUE],
+           xs |-> <<Early(Exchange(pr, sc, 1)), Exchange(SimpleProgs[1], ProbeScript, 2)>>]]
+
 \* ---- mode "cuts": small script, then a probe on the (possibly) reused connection
 CutStarts == {j \in 1 .. NS : j % CutStride = 0}
 CasesC ==
@@ -340,7 +365,7 @@ CasesK ==
            xs |-> <<Exchange([NoPathSlashQueryProg EXCEPT !.query = "x=1", !.url = "http://example.com?x=1"], ProbeScript, 1)>>],
           [tag |-> "K-authority-query-slash", cutX |-> 0, cfg |-> KCfg(st, FALSE), xs |-> <<Exchange(NoPathSlashQueryProg, ProbeScript, 1)>>] >>])
 
-AllCases == IF Mode \in {"cuts", "cutsbig"} THEN CasesC ELSE Flatten([c \in 1 .. 8 |-> CasesA(c - 1)]) \o CasesB \o CasesL \o CasesK
+AllCases == IF Mode \in {"cuts", "cutsbig"} THEN CasesC ELSE Flatten([c \in 1 .. 8 |-> CasesA(c - 1)]) \o CasesB \o CasesL \o CasesE \o CasesK
 \* One Response object serves a whole sequence, handed to Do as it is -- except that after a HEAD exchange it is Reset()
 \* first (known finding C11-skipbody-sticky: the SkipBody flag the client sets for HEAD survives into the next Do; its
 \* minimal case K-head-then-get keeps the object as it is).
